@@ -163,18 +163,18 @@ impl Executor for IndexScan {
                 .as_ref()
                 .ok_or(RuntimeError::CursorUninitialized)?
                 .get_tree();
-            let maybe_row = tree
-                .get_row_at(next_pos, &self.index_schema, &snapshot)?
-                .filter(|r| {
-                    self.evaluate_index_predicate(r)
-                        .expect("Predicate evaluation failed")
-                });
+            let maybe_row = tree.get_row_at(next_pos, &self.index_schema, &snapshot)?;
 
-            if maybe_row.is_none() {
+            // Not visible for our snapshot
+            let Some(found_row) = maybe_row else {
+                continue;
+            };
+
+            // A predicate that cannot be evaluated is an error of the statement, not a panic
+            if !self.evaluate_index_predicate(&found_row)? {
                 continue;
             }
 
-            let found_row = maybe_row.unwrap();
             let row_key_bytes = self.get_row_id_checked(&found_row)?.serialize()?;
 
             // Build the table tree
@@ -183,19 +183,18 @@ impl Executor for IndexScan {
                 table_tree.search(row_key_bytes.as_ref(), &self.table_schema)?;
 
             if let SearchResult::Found(found_pos) = actual_row_result {
-                let actual_row = tree
-                    .get_row_at(found_pos, &self.table_schema, &snapshot)?
-                    .filter(|r| {
-                        self.evaluate_residual_predicate(r)
-                            .expect("Predicate evaluation failed")
-                    });
+                let Some(actual_row) =
+                    tree.get_row_at(found_pos, &self.table_schema, &snapshot)?
+                else {
+                    continue;
+                };
 
-                if actual_row.is_none() {
+                if !self.evaluate_residual_predicate(&actual_row)? {
                     continue;
                 }
 
                 self.stats.rows_produced += 1;
-                return Ok(Some(actual_row.unwrap()));
+                return Ok(Some(actual_row));
             } else {
                 continue;
             }
